@@ -14,18 +14,29 @@ flowsheet (property C19).  Core Lean only.
   * `validNetwork`        – executable checker of the property's observable
                             (flattened path, nested recycle loops, reported recycles vs the graph).
 
-The joining machinery between the depth-first walk and `sort` (`join_linear_network`,
-`join_recycle_network`, `_insert_recycle_network`, …) is *not* modelled; its output is
-validated per run with `validNetwork`.
+  * `fromUnits`           – the whole of `Network.from_units` as long as no walk reports a recycle (every
+                            acyclic flowsheet): feeds, `sort_feeds_big_to_small`, the walk of every feed,
+                            `simplified_linear_paths`, `join_linear_network`, `_remove_overlap`,
+                            `_insert_linear_network`, `_append_network`, `join_network_at_unit`, `first_unit`,
+                            the final `sort`, the closing step of `add_interaction_units`.
+
+The recycle part of the assembly (`join_recycle_network`, `_insert_recycle_network`,
+`_add_linear_network`, `reduce_recycles`) is *not* modelled: `fromUnits` answers `Err.recycle`
+as soon as a walk reports a recycle, and the network the real code builds then is validated per
+run with `validNetwork`.
 -/
 namespace ThermoVerif.NetSort
 
 inductive Err where
   | fuel        -- a bounded iteration did not reach its fixpoint / recursion bound hit
+  | recycle     -- the depth-first walk found a recycle: outside the modelled (acyclic) assembly
+  | noUnit      -- `Network.first_unit`: "network does not contain any of the given units"
   deriving Repr, DecidableEq
 
 def Err.toString : Err → String
   | .fuel => "fuel"
+  | .recycle => "recycle"
+  | .noUnit => "no-unit"
 
 /-! ## The flowsheet graph -/
 
@@ -334,5 +345,153 @@ def checkNetwork (g : Graph) (p : Item) (R : List Nat) : Verdict :=
       else .valid
 
 def validNetwork (g : Graph) (p : Item) (R : List Nat) : Bool := checkNetwork g p R == .valid
+
+/-! ## The acyclic pipeline of `Network.from_units`
+
+`from_units → sort_feeds_big_to_small → from_feedstock` over all feeds with linear paths only
+(`simplified_linear_paths`, `join_linear_network`, `_remove_overlap`, `_insert_linear_network`,
+`_append_network`, `join_network_at_unit`, `first_unit`), the final `sort` and the closing step of
+`add_interaction_units`.  Networks are flat here (`path : List Nat`; `Network.units = set(path)`).
+As soon as the walk reports a recycle the model stops with `Err.recycle`: recycle networks
+(`join_recycle_network`, `_insert_recycle_network`, `reduce_recycles`) are not modelled. -/
+
+/-! stable insertion sort by length (`linear_paths.sort(key=len)`) -/
+
+/-- inserting from the right: `p` goes in front of the first entry that is not shorter (stable) -/
+def insertByLenFront (p : List Nat) : List (List Nat) → List (List Nat)
+  | [] => [p]
+  | q :: qs => if p.length ≤ q.length then p :: q :: qs else q :: insertByLenFront p qs
+
+def sortByLen (L : List (List Nat)) : List (List Nat) := L.foldr insertByLenFront []
+
+/-- `simplify_linear_path(path, unit_sets)`: drop every unit that occurs in one of the later paths -/
+def simplifyPath (path : List Nat) (later : List (List Nat)) : List Nat :=
+  path.filter fun u => !(later.any fun q => q.contains u)
+
+def simplifyAll : List (List Nat) → List (List Nat)
+  | [] => []
+  | p :: rest =>
+    let p' := simplifyPath p rest
+    (if p'.isEmpty then [] else [p']) ++ simplifyAll rest
+
+/-- `simplified_linear_paths(linear_paths)` -/
+def simplifiedPaths (L : List (List Nat)) : List (List Nat) := (simplifyAll (sortByLen L)).reverse
+
+/-- `_remove_overlap(network, path_tuple)` -/
+def removeOverlap (path : List Nat) (pathTuple : List Nat) (units : List Nat) : List Nat :=
+  pathTuple.foldl (fun p i => if units.contains i then p.erase i else p) path
+
+/-- `_insert_linear_network(index, network)` -/
+def insertLinear (path : List Nat) (index : Nat) (nw : List Nat) : List Nat :=
+  path.take index ++ nw ++ path.drop index
+
+/-- `join_linear_network(linear_network)` on a flat network -/
+def joinLinear (self nw : List Nat) : List Nat :=
+  let path' := removeOverlap self self nw
+  match self.findIdx? (fun i => nw.contains i) with
+  | some index => insertLinear path' index nw
+  | none => path' ++ nw
+
+/-- `join_network_at_unit(network, unit)` on flat networks without recycle -/
+def joinAtUnit (self nw : List Nat) (unit : Nat) : List Nat :=
+  match self.findIdx? (fun i => i == unit) with
+  | some index => insertLinear self index nw
+  | none => joinLinear self nw
+
+/-- `from_feedstock(feed, (), ends, units, final=False)` as long as no recycle is found:
+walk, simplify, join the linear paths -/
+def linearNetwork (g : Graph) (units : List Nat) (feed : Nat) (ends : List Nat) : Except Err (List Nat) :=
+  match findPaths g units feed ends with
+  | .error e => .error e
+  | .ok st =>
+    if !st.withR.isEmpty then .error .recycle
+    else
+      match simplifiedPaths st.without with
+      | [] => .ok []
+      | p :: rest => .ok (rest.foldl joinLinear p)
+
+/-- `tmo.utils.feeds_from_units(units)` -/
+def feedsOf (g : Graph) (units : List Nat) : List Nat :=
+  units.flatMap fun u => (g.insOf u).filter fun s =>
+    match g.sourceOf s with
+    | some v => !units.contains v
+    | none => true
+
+/-- `tmo.utils.products_from_units(units)` -/
+def productsOf (g : Graph) (units : List Nat) : List Nat :=
+  units.flatMap fun u => (g.outsOf u).filter fun s =>
+    match g.sinkOf s with
+    | some v => !units.contains v
+    | none => true
+
+/-- the units at which the network of another feed connects to what is already there -/
+def connectingUnits (g : Graph) (units ends newStreams : List Nat) : List Nat :=
+  addNew [] (ends.filterMap fun s =>
+    if newStreams.contains s && (g.sourceOf s).isSome then
+      match g.sinkOf s with
+      | some v => if units.contains v then some v else none
+      | none => none
+    else none)
+
+structure AsmSt where
+  path : List Nat
+  ends : List Nat
+
+/-- body of `for feed in feeds:` in `from_feedstock` -/
+def addFeed (g : Graph) (units : List Nat) (st : AsmSt) (feed : Nat) : Except Err AsmSt :=
+  if st.ends.contains feed then .ok st
+  else
+    match linearNetwork g units feed st.ends with
+    | .error e => .error e
+    | .ok q =>
+      let newStreams := streamsOf g q
+      let conn := connectingUnits g units st.ends newStreams
+      let ends' := addNew st.ends newStreams
+      match conn with
+      | [] => .ok { path := st.path ++ q, ends := ends' }
+      | [v] => .ok { path := joinAtUnit st.path q v, ends := ends' }
+      | _ =>
+        match st.path.find? (fun i => conn.contains i) with
+        | some v => .ok { path := joinAtUnit st.path q v, ends := ends' }
+        | none => .error .noUnit
+
+def addFeeds (g : Graph) (units : List Nat) : AsmSt → List Nat → Except Err AsmSt
+  | st, [] => .ok st
+  | st, f :: fs =>
+    match addFeed g units st f with
+    | .error e => .error e
+    | .ok st' => addFeeds g units st' fs
+
+/-- the last line of `_add_interaction_units`: `if len(path) > 1 and path[-1] is path[0]: path.pop()` -/
+def popIfLoop : List Item → List Item
+  | [] => []
+  | x :: xs =>
+    match x, xs.getLast? with
+    | .unit a, some (.unit b) => if a == b then x :: xs.dropLast else x :: xs
+    | _, _ => x :: xs
+
+/-- the feeds of the given units after `sort_feeds_big_to_small`; the first one is the feedstock -/
+def sortedFeeds (g : Graph) (units : List Nat) (fmass : List Nat) : List Nat :=
+  let feeds := feedsOf g units
+  (feedOrder (feeds.map fun s => fmass.getD s 0)).map fun k => feeds.getD k 0
+
+/-- `Network.from_units(units)` on a flowsheet whose walks find no recycle.  `fmass` gives `F_mass`
+per stream id.  Result: the final network and the number of warnings of the final `sort`. -/
+def fromUnits (g : Graph) (units : List Nat) (fmass : List Nat) : Except Err (Item × Nat) :=
+  match sortedFeeds g units fmass with
+  | [] => .ok (.net [] [], 0)
+  | feedstock :: rest =>
+    let ends0 := addNew [] (productsOf g units)
+    match linearNetwork g units feedstock ends0 with
+    | .error e => .error e
+    | .ok p0 =>
+      match addFeeds g units { path := p0, ends := addNew ends0 (streamsOf g p0) } rest with
+      | .error e => .error e
+      | .ok st =>
+        let recycleEnds := addNew ends0 (productsOf g st.path)
+        match sortItem g recycleEnds (.net (st.path.map .unit) []) with
+        | .error e => .error e
+        | .ok (.net p r, w) => .ok (.net (popIfLoop p) r, w)
+        | .ok (it, w) => .ok (it, w)
 
 end ThermoVerif.NetSort
